@@ -1,21 +1,33 @@
-import sys, importlib, time, json
+"""dev helper: python3-vt dev_run.py <substring of qualname> [--all] [--par]   (loads every contracts module)"""
+import sys, importlib, time, json, pkgutil
 sys.path.insert(0, '/verif')
-from h2vc import spec, prove, deps_model
-import contracts.layouts
-for m in sys.argv[2].split(',') if len(sys.argv) > 2 else []:
-    importlib.import_module('contracts.' + m)
-spec.spec_module('/verif/contracts/specfns.py')
-V = prove.Verifier()
+from h2vc import spec, prove, deps_model, cli
+cli.load_contracts()
 pat = sys.argv[1] if len(sys.argv) > 1 else ''
-for qn in list(spec.REGISTRY):
-    if pat not in qn: continue
-    rep = V.verify(qn)
+targets = [qn for qn in spec.REGISTRY if pat in qn]
+if '--par' in sys.argv:
+    reports, crashes = cli.run_all(targets, 'quick', 0)
+    for qn, err in crashes:
+        print('CRASH', qn, err)
+else:
+    V = prove.Verifier()
+    reports = {qn: V.verify(qn) for qn in targets}
+for qn, rep in reports.items():
     res = {}
     for ob in rep.obligations:
         res[ob.result] = res.get(ob.result, 0) + 1
-    print('%-55s paths=%d aborted=%d obs=%s canary=%s vacuous=%s %.2fs' % (qn, rep.paths, rep.aborted, res, rep.canary, rep.vacuous, rep.wall_s))
+    print('%-55s paths=%d aborted=%d bout=%d obs=%s canary=%s vacuous=%s %.2fs' % (qn, rep.paths, rep.aborted, rep.bounded_out, res, rep.canary, rep.vacuous, rep.wall_s))
     for u in rep.undecided: print('   UNDECIDED', u)
+    seen = {}
     for ob in rep.obligations:
         if ob.result != 'proved':
-            print('   ', ob.result, ob.oid, '|', ob.clause, '|', ' / '.join(ob.path[-6:]), ob.site or '', ob.note)
-            if ob.witness: print('       witness', json.dumps(ob.witness)[:300])
+            key = (ob.result, ob.oid, json.dumps(ob.site, default=str))
+            seen.setdefault(key, []).append(ob)
+    for (r, oid, site), obs in seen.items():
+        ob = obs[0]
+        print('   %s x%d %s | %s' % (r, len(obs), oid, ob.clause[:200]))
+        print('        site=%s note=%s' % (site[:200], ob.note))
+        shown = 2 if '--all' not in sys.argv else len(obs)
+        for o in obs[:shown]:
+            print('        path:', ' / '.join(o.path[-14:]))
+        if ob.witness and '--wit' in sys.argv: print('        witness', json.dumps(ob.witness)[:1500])
